@@ -929,8 +929,16 @@ def gen_ref_program(rng, missing=False):
     npseudo = 0
     if not missing and kind in ("plain", "dups", "post", "array4") and rng.random() < 0.5:
         shared = [c for c in cps if sum(1 for d in cps if cmap[d] == cmap[c]) > 1 and c <= 0xFFFF]
+        used_inp = set()
         for q in range(rng.randint(1, 3)):
             inp = 0xE000 + q
+            if shared and prog.auto_pseudo and rng.random() < 0.35:
+                # the input is a code point that shares its glyph with another one, so it has an automatic pseudo-glyph too:
+                # the program's own definition takes its place (one entry in the map)
+                cand = [c for c in shared if c not in used_inp]
+                if cand:
+                    inp = rng.choice(cand)
+            used_inp.add(inp)
             form = rng.choice(["unicode", "uplus", "glyphid"] + (["unicode", "uplus"] if shared else []))
             if form == "glyphid":
                 g = rng.randint(2, n - 1)
